@@ -159,6 +159,7 @@ class Exec:
         self.module_tree = module_tree
         self.spec_mode = spec_mode
         self.ctx = None
+        self.closure_env = {}
         self.imports = {}
         self.mod_consts = {}
         if module_tree is not None:
@@ -212,7 +213,7 @@ class Exec:
             s.add(c)
         s.add(extra)
         from .specs import unfold
-        eqs = unfold(self.w, self.ctx.pc + [extra], fuel=1)
+        eqs = unfold(self.w, [extra], fuel=1, facts=list(self.ctx.pc))
         for q in eqs:
             s.add(q)
         for g in self.w.ground_len_facts(self.ctx.pc + [extra] + eqs):
@@ -915,6 +916,27 @@ class Exec:
             args.append(a)
         if isinstance(f, Ref) and f.kind == "typing" and f.name == "cast":
             return self.ev(args[1], env)
+        if isinstance(f, Ref) and f.kind == "builtin" and f.name == "implies" and len(args) == 2:
+            # guarded evaluation: the consequent is evaluated under the antecedent
+            a = self.to_bool(self.ev(args[0], env))
+            saved = len(self.ctx.pc)
+            saved_known = dict(self.ctx.known)
+            self.ctx.pc.append(a)
+            self.learn(a)
+            b = self.to_bool(self.ev(args[1], env))
+            extra = self.ctx.pc[saved + 1:]
+            del self.ctx.pc[saved:]
+            self.ctx.known = saved_known
+            for c in extra:
+                self.ctx.pc.append(z3.Implies(a, c))
+            return Z(z3.Implies(a, b))
+        if isinstance(f, Ref) and f.kind == "builtin" and f.name == "old" and len(args) == 1:
+            oe = env.get("__old__")
+            if oe is None:
+                raise Unsupported("old() outside a postcondition")
+            e2 = dict(env)
+            e2.update({k: v for k, v in oe.items() if v is not None})
+            return self.ev(args[0], e2)
         # a few builtins need unevaluated generator arguments
         if isinstance(f, Ref) and f.kind == "builtin" and f.name in ("any", "all", "next") \
                 and args and isinstance(args[0], (ast.GeneratorExp, ast.ListComp)):
